@@ -59,9 +59,10 @@ impl SegmentSizes {
     }
 
     pub fn on_payload_delivered(&mut self, payload_size: usize) {
-        let payload_size = payload_size.min(u16::MAX as usize) as u16;
+        // Never go above max_ss: it is derived from the configured link MTU (and failed probes),
+        // a larger payload sent by the peer says nothing about what our link can carry.
+        let payload_size = payload_size.min(self.max_ss as usize) as u16;
         self.min_ss = self.min_ss.max(payload_size);
-        self.max_ss = self.max_ss.max(self.min_ss);
     }
 
     pub fn mss(&self) -> u16 {
